@@ -1285,6 +1285,8 @@ def util_round(fu, d, n, m, mask, bits, D, N, M):
         o["nresw"] = flat(fu.normalized_residual_map_with_mask_from(residual_map=rw, noise_map=n, mask=mask))
         cmw = fu.chi_squared_map_with_mask_from(residual_map=rw, noise_map=n, mask=mask)
         o["cmapw"] = flat(cmw); o["chi2w"] = float(fu.chi_squared_with_mask_from(chi_squared_map=cmw, mask=mask))
+        # the masked sum of a map that CARRIES values at masked entries (the unmasked map): only unmasked entries count
+        o["chi2wx"] = float(fu.chi_squared_with_mask_from(chi_squared_map=cm, mask=mask))
         o["fast"] = float(fu.chi_squared_with_mask_fast_from(data=d, mask=mask, model_data=m, noise_map=n))
         o["nnw"] = float(fu.noise_normalization_with_mask_from(noise_map=n, mask=mask))
         o["rff"] = flat(fu.residual_flux_fraction_map_from(residual_map=np.asarray(r), data=np.asarray(d)))
@@ -1303,9 +1305,12 @@ def util_round(fu, d, n, m, mask, bits, D, N, M):
     extra = [f"(KUtilX {ql(o['res'])} {ql(D)} {clist([cbool(b) for b in bits])} {xl(o['rff'])} {xl(o['rffx'])})"]
     nn = sum(math.log(2 * math.pi * x * x) for x in N)
     nnw = sum(math.log(2 * math.pi * x * x) for x, b in zip(N, bits) if not b)
-    py_ok = rel_close(o["nn"], nn) and rel_close(o["nnw"], nnw) and unchanged
+    chi2wx = math.fsum(v for v, b in zip(o["cmap"], bits) if not b)
+    wx_ok = rel_close(o["chi2wx"], chi2wx) if math.isfinite(chi2wx) else not math.isfinite(o["chi2wx"])
+    py_ok = rel_close(o["nn"], nn) and rel_close(o["nnw"], nnw) and unchanged and wx_ok
     detail = None if py_ok else ("a fit_util function modified one of its arguments in place" if not unchanged
-                                 else f"noise normalization {o['nn']} / {o['nnw']} vs {nn} / {nnw}")
+                                 else f"chi_squared_with_mask_from of the unmasked chi-squared-map: {o['chi2wx']} vs the sum over unmasked entries {chi2wx}"
+                                 if not wx_ok else f"noise normalization {o['nn']} / {o['nnw']} vs {nn} / {nnw}")
     return coq, extra, o, py_ok, detail
 
 def run_compose(inp):
